@@ -32,7 +32,7 @@ CHECKS["C03"] = dict(
         "the query positions are drawn: absorbed (must-pass reseed whose data originates in the component), authenticated by a Merkle decision "
         "against an absorbed root with leaves recomputed from the returned values, or hash-compared with an absorbed commitment; every sub-parser "
         "rejects trailing bytes on all accepting paths. A component without a binding (e.g. a new field, a dropped absorption, a weakened "
-        "exact-length decision) is reported. Hash/Merkle arithmetic is not decided. Also: TraceQueries::new / ConstraintQueries::new keep the Merkle opening of every Queries::parse whose table they keep (no segment's openings are silently dropped).",
+        "exact-length decision) is reported. Hash/Merkle arithmetic is not decided. Also: TraceQueries::new / ConstraintQueries::new keep the Merkle opening of every Queries::parse whose table they keep (no segment's openings are silently dropped). (U) No decoded content of an accepted proof is left unused: a batch Merkle opening has one leaf per position and every node of every node vector is consumed, and the presence of the optional GKR proof is examined on every accepting path.",
    design_ref="DESIGN.md §3 C03/C05/C02")
 CHECKS["C18"] = dict(
    technique="static analysis: must-pass policy decision per enum arm, canonical comparisons, and normal-form comparison of path-wise symbolic expressions with the documented formula",
@@ -166,8 +166,13 @@ CHECKS["C06"] = dict(
         "(commitments, queries, tables, OOD frame, FRI proof and layers, batch Merkle proof deserialisation) no integer derived from input bytes "
         "reaches an overflow/underflow, division, pow/ilog2, bounds, unwrap, explicit-panic or pre-allocation site without having been proved "
         "safe on that path. Obligations whose deciding operand is the length of a sequence built in a loop are counted as undecided, not as "
-        "alarms. Not covered (stated in DESIGN.md): the transcript replay / Merkle / FRI query phase of verify(), user Air::new, termination, "
-        "memory other than pre-allocation by unchecked counts.",
+        "alarms. Rule G adds the structural guards that protect panic sites outside the interpreter's scope (FRI layer count, optional "
+        "components never unwrapped, base-field decision before the context is interpreted, Lagrange kernel frame size, one leaf per opened "
+        "position, number of queries below the LDE domain size). Rule AC analyses the AirContext constructors with the proof's trace info and "
+        "options as attacker-controlled arguments: eight of their assertions are reachable from proof bytes (confirmed by tests), have no small "
+        "safe repair (Air::new cannot fail) and are reported as KNOWN-FINDING (known_findings.json); a further one would be a VIOLATION. Not "
+        "covered: the rest of the transcript replay / DEEP / FRI query phase of verify(), assertions written by AIR authors in Air::new, "
+        "termination, memory other than pre-allocation by unchecked counts.",
    design_ref="DESIGN.md §3 C06",
    note="Additional assumptions: std transfer functions for ~60 core/alloc functions; associated constants ELEMENT_BYTES <= 64, EXTENSION_DEGREE <= 3; "
         "untainted (AIR-defined) operands below 2^32 when deciding whether an overflow is attacker-driven; contract for Context::num_modulus_bits.")
